@@ -213,6 +213,12 @@ class Container(dict):
         compiled_pattern = re.compile(pattern)
         return self.__class__._search(self, compiled_pattern, True)
 
+    def __reduce__(self, /):
+        """
+        Used by pickle. Recreates the instance through the class (so that attribute access keeps working) and does not use the items method (which an entry can shadow).
+        """
+        return (self.__class__, (), self.__class__.__getstate__(self))
+
     def __getstate__(self, /):
         """
         Used by pickle to serialize an instance to a dict.
